@@ -5,8 +5,8 @@ import tlc2.value.impl.StringValue;
 import tlc2.value.impl.Value;
 
 // Module override for Num.tla: the same operators on arbitrary-size integers.
-// Inputs: IntValue or StringValue holding a decimal integer. Outputs are canonical:
-// IntValue when |n| < 2^31, StringValue otherwise. Arithmetic only.
+// Inputs: IntValue or StringValue holding a decimal integer. Outputs are canonical decimal
+// StringValues. Arithmetic only.
 public class Num {
   private static final BigInteger IMAX = BigInteger.valueOf(Integer.MAX_VALUE);
   private static final BigInteger IMIN = BigInteger.valueOf(-Integer.MAX_VALUE);
@@ -16,8 +16,9 @@ public class Num {
     if (v instanceof StringValue) return new BigInteger(((StringValue) v).val.toString());
     throw new RuntimeException("Num: not a number: " + v);
   }
+  // canonical form under the override: ALWAYS a decimal string (TLC refuses to compare a string
+  // with an integer, so one representation must be used for every amount in a trace run)
   private static Value can(BigInteger b) {
-    if (b.compareTo(IMAX) <= 0 && b.compareTo(IMIN) >= 0) return IntValue.gen(b.intValue());
     return new StringValue(b.toString());
   }
   private static Value bool(boolean b) { return b ? BoolValue.ValTrue : BoolValue.ValFalse; }
@@ -42,5 +43,5 @@ public class Num {
   public static Value NMax(Value a, Value b) { return can(big(a).max(big(b))); }
   public static Value NIsOdd(Value a) { return bool(big(a).testBit(0)); }
   public static Value NPow10(Value n) { return can(BigInteger.TEN.pow(big(n).intValueExact())); }
-  public static Value NBitLen(Value a) { return can(BigInteger.valueOf(big(a).abs().bitLength())); }
+  public static Value NBitLen(Value a) { return IntValue.gen(big(a).abs().bitLength()); }
 }
